@@ -5,7 +5,7 @@ import math
 from . import rule, info
 from ..program import AnalysisError, src, norm, ClassInfo
 from ..affine import linear, NotAffine
-from ..util import (flows_into, string_pieces, values_on, polarity, is_name, calls_in, callee_qual, deref, ancestors, stmt_of, parent, kwarg)
+from ..util import (exclusive, flows_into, string_pieces, values_on, polarity, is_name, calls_in, callee_qual, deref, ancestors, stmt_of, parent, kwarg)
 from .c01 import model
 from .c02 import producers
 from ..pattern import match, matches
@@ -273,6 +273,15 @@ def formatter_exhaustive(ctx):
         b0 = match(lc[0].elt.body, '_format_t($pt)')
         ok = b0 is not None and matches(lc[0].elt.orelse, 'repr(%s)' % b0['pt']) and is_name(lc[0].generators[0].target, b0['pt'])
     ctx.ob(ok, fu, 'every part is rendered, T chunks as T expressions and path parts by repr: %s' % [norm(x) for x in lc])
+    # T chunks are told from literal parts by being lists: a list cannot be a dict key, a tuple can
+    if lc and isinstance(lc[0].elt, ast.IfExp):
+        pol = polarity(lc[0].elt.test, 'type(%s) is list' % (b0['pt'] if ok and b0 else '$p'))
+        ctx.ob(pol is not None, fu, 'chunks are recognised as `type(part) is list`: %s' % norm(lc[0].elt.test),
+               '' if pol is not None else 'a literal path part of the marker type (e.g. a tuple key) would be rendered as a T chunk')
+        accs = [n for n in fu.own_nodes() if isinstance(n, ast.Assign) and is_name(n.targets[0])
+                and isinstance(n.value, (ast.List, ast.Tuple)) and not n.value.elts]
+        ctx.ob(bool(accs) and all(isinstance(n.value, ast.List) for n in accs), fu,
+               'the chunk and part accumulators are lists: %s' % [norm(n) for n in accs])
     ctx.floor(len(codes) + len(structural) + 7)
 
 
@@ -707,3 +716,37 @@ def pickle_protocol_complete(ctx):
             ctx.ob(ok, u, '%s.%s hands over the complete state (%s): %s' % (cls.name, name, state, [norm(r) for r in rets]),
                    '' if ok else 'the pickled / copied form is a projection of the op tuple: step kinds or the root are lost')
     ctx.floor(2)
+
+
+@rule('C18.12')
+def builtin_names_only_for_opaque_reprs(ctx):
+    """bbrepr substitutes a builtin's *name* only when the ordinary repr is not a literal (it
+    starts with ``<``); looked up first, the id-keyed table also catches interned literals that
+    happen to be builtins' values (``''`` is ``builtins.__package__``, ``True`` is ``__debug__``)
+    and ``repr(T[''])`` stops evaluating to an equal expression"""
+    u = ctx.unit('core._BBRepr.repr1')
+    cfg = ctx.cfg(u)
+    x = u.params[1]
+    looks = [n for n in cfg.nodes if n.kind in ('stmt', 'test') and any(
+        isinstance(c, ast.Call) and isinstance(c.func, ast.Attribute) and c.func.attr == 'get'
+        and is_name(c.func.value, '_BUILTIN_ID_NAME_MAP') for c in ast.walk(n.ast))]
+    ctx.ob(len(looks) == 1, u, 'one lookup in the builtin-name table (%d)' % len(looks))
+    tests = []
+    for t in cfg.nodes:
+        if t.kind == 'test':
+            pol = polarity(t.ast, "$r.startswith('<')")
+            if pol:
+                tests.append((t, pol))
+    ctx.ob(len(tests) == 1, u, "the ordinary repr is tested for the opaque form `<...>`: %s" % [norm(t.ast) for t, _ in tests])
+    if len(looks) == 1 and len(tests) == 1:
+        t, opaque = tests[0]
+        ok = looks[0] in exclusive(cfg, t, opaque) and cfg.dominates(t, looks[0])
+        ctx.ob(ok, u, 'the name table is consulted only for opaque reprs: %s' % norm(looks[0].ast),
+               '' if ok else 'literals whose object identity coincides with a builtin value are rendered as that builtin\'s name')
+        # the tested repr is Repr.repr1 of the same object
+        rv = match(t.ast if not isinstance(t.ast, ast.UnaryOp) else t.ast.operand, "$r.startswith('<')")
+        if rv:
+            d = deref(cfg, t, ast.Name(id=rv['r'], ctx=ast.Load()))
+            ok = isinstance(d, ast.Call) and 'repr1' in norm(d.func) and any(is_name(a, x) for a in d.args)
+            ctx.ob(ok, u, 'the tested text is the ordinary repr of the same object: %s' % norm(d))
+    ctx.floor(3)
